@@ -827,7 +827,7 @@ def gen_c03(seed, count):
         order = [p for p in kinds if kinds[p] == 2]
         r.shuffle(order)
         recd = []
-        for pid in order[:r.randint(1, len(order))]:
+        for pid in order[:r.randint(1, max(1, len(order)))]:
             c.feed(ack(5, pid, r.choice([None, None, None, 0, 0x10, 0x80])))
             c.poll()
             recd.append(pid)
